@@ -29,6 +29,10 @@
 (*  prop  LockstepExact the same for B against X                            *)
 (*  prop  RaiseAgree    a prefix raises on the concrete route iff it raises *)
 (*                      on the symbolic route                               *)
+(*  prop  GlobalsAgree  the decode-mode globals of the env module (python   *)
+(*                      state outside the map: thumb/arm switch, endianness,*)
+(*                      IT state) are the same after both routes; later    *)
+(*                      prefixes of such a trace are not judged             *)
 (*  drift RefEval       Expr!Eval(tree of the map, sigma0), where it is not *)
 (*                      Unknown, equals route A                             *)
 (* With the no-aliasing assumption on, a prefix is inside the claim only    *)
@@ -155,6 +159,11 @@ CheckStep(v, st) ==
   LET inside == IF T.noal = 0 THEN "yes" ELSE IF st.accok = 0 THEN "undecided" ELSE DisjointAcc(st.acc) IN
   IF inside # "yes"
   THEN [v EXCEPT !.outside = @ + (IF inside = "no" THEN 1 ELSE 0), !.undecided = @ + (IF inside = "undecided" THEN 1 ELSE 0)]
+  ELSE IF v.globals # "ok"
+  THEN [v EXCEPT !.afterglobals = @ + 1]  \* an earlier prefix left the decode-mode globals different on the two routes:
+                                          \* what follows is a consequence of that (already recorded) divergence
+  ELSE IF "gA" \in DOMAIN st /\ st.gA # st.gB
+  THEN Set(v, "globals", ToJson([step |-> st.k, kind |-> "globals", ga |-> st.gA, gb |-> st.gB]))
   ELSE IF TimedOut(st)
   THEN [v EXCEPT !.timeouts = @ + 1]      \* a route exceeded its CPU budget: no value to compare, not a verdict
   ELSE IF DivZero(st)
@@ -185,7 +194,7 @@ Init == /\ TLCSet(7, ndJsonDeserialize(IOEnv.TRACE_FILE))
         /\ tid \in 1..Len(Traces)
         /\ k = 1
         /\ env = IF "steps" \in DOMAIN Traces[tid] THEN EnvOf(Traces[tid]) ELSE [regs |-> <<>>, mem |-> <<>>]
-        /\ verdict = [lock |-> "ok", evl |-> "ok", exact |-> "ok", raise |-> "ok", ref |-> "ok",
+        /\ verdict = [lock |-> "ok", evl |-> "ok", exact |-> "ok", raise |-> "ok", ref |-> "ok", globals |-> "ok", afterglobals |-> 0,
                       cmp |-> 0, symB |-> 0, symA |-> 0, refd |-> 0, judged |-> 0,
                       outside |-> 0, undecided |-> 0, bothraise |-> 0, dropped |-> 0, timeouts |-> 0, divzero |-> 0]
         /\ done = FALSE
